@@ -218,7 +218,7 @@ class StmtsMixin:
     def st_ReturnStmt(self, st, s):
         rs = s.get('Results')
         if not rs:
-            vals = [st.env[oid] for oid in st.results.values()]
+            vals = [self.read_var(st, oid) for oid in st.results.values()]
         else:
             vals = [self.ev(st, r) for r in rs]
             if len(vals) == 1 and isinstance(vals[0], TupleV):
